@@ -49,3 +49,61 @@ func TestGovcReplayExprTermNil(t *testing.T) {
 	}
 	fmt.Println("NOT-REPRODUCED: every expression operand is either converted or reported as an error")
 }
+
+func govcRender(e biscuit.Expression) string {
+	s := ""
+	for _, op := range e {
+		switch v := op.(type) {
+		case biscuit.Value:
+			if v.Term == nil {
+				s += "<nil> "
+			} else {
+				s += v.Term.String() + " "
+			}
+		case biscuit.UnaryOp:
+			s += map[biscuit.UnaryOp]string{biscuit.UnaryNegate: "!", biscuit.UnaryParens: "()", biscuit.UnaryLength: "len"}[v] + " "
+		case biscuit.BinaryOp:
+			s += map[biscuit.BinaryOp]string{biscuit.BinaryLessThan: "<", biscuit.BinaryLessOrEqual: "<=", biscuit.BinaryGreaterThan: ">", biscuit.BinaryGreaterOrEqual: ">=", biscuit.BinaryEqual: "==", biscuit.BinaryContains: "contains", biscuit.BinaryPrefix: "starts_with", biscuit.BinarySuffix: "ends_with", biscuit.BinaryRegex: "matches", biscuit.BinaryAdd: "+", biscuit.BinarySub: "-", biscuit.BinaryMul: "*", biscuit.BinaryDiv: "/", biscuit.BinaryAnd: "&&", biscuit.BinaryOr: "||", biscuit.BinaryIntersection: "intersection", biscuit.BinaryUnion: "union"}[v] + " "
+		default:
+			s += "<?> "
+		}
+	}
+	return s
+}
+
+// TestGovcReplayExprCorpus: C14 — expressions of the documented grammar against
+// their postfix form written by hand from the documented precedence
+// (! over * / over + - over comparisons over && over ||; methods bind tightest;
+// parentheses are kept as a unary operation).
+func TestGovcReplayExprCorpus(t *testing.T) {
+	corpus := []struct{ src, want string }{
+		{`1 + 2 * 3 < 10`, `1 2 3 * + 10 < `},
+		{`$a < 1 && $b > 2 || $c == 3`, `$a 1 < $b 2 > && $c 3 == || `},
+		{`($x) == 1`, `$x () 1 == `},
+		{`!($x)`, `$x () ! `},
+		{`(1 + 2) * 3 == 9`, `1 2 + () 3 * 9 == `},
+		{`!$a && $b`, `$a ! $b && `},
+		{`$s.starts_with("a") && $s.length() == 3`, `$s "a" starts_with $s len 3 == && `},
+		{`1 - 2 - 3 == 0`, `1 2 - 3 - 0 == `},
+		{`8 / 2 / 2 == 2`, `8 2 / 2 / 2 == `},
+		{`[1, 2].contains($x)`, `[1, 2] $x contains `},
+		{`$a <= 1`, `$a 1 <= `}, {`$a >= 1`, `$a 1 >= `}, {`$a > 1`, `$a 1 > `},
+		{`$s.matches("a*")`, `$s "a*" matches `}, {`$s.ends_with("z")`, `$s "z" ends_with `},
+		{`[1].union([2]) == [1, 2]`, `[1] [2] union [1, 2] == `},
+		{`[1].intersection([2]).length() == 0`, `[1] [2] intersection len 0 == `},
+	}
+	for _, c := range corpus {
+		chk, err := FromStringCheck("check if " + c.src)
+		if err != nil || len(chk.Queries) != 1 || len(chk.Queries[0].Expressions) != 1 {
+			fmt.Printf("REPRODUCED: %q of the documented grammar is not parsed into one expression (err=%v)\n", c.src, err)
+			t.Fail()
+			return
+		}
+		if got := govcRender(chk.Queries[0].Expressions[0]); got != c.want {
+			fmt.Printf("REPRODUCED: %q parses to postfix %q, the documented precedence gives %q\n", c.src, got, c.want)
+			t.Fail()
+			return
+		}
+	}
+	fmt.Println("NOT-REPRODUCED: the expression corpus parses to the documented postfix forms")
+}
